@@ -4,6 +4,7 @@ Inline tokenizer for mistletoe.
 
 import html
 import re
+from html.entities import html5 as _html5_entities
 
 
 # replacement for html._charref which matches only entitydefs ending with ';',
@@ -12,6 +13,27 @@ _markdown_charref = re.compile(r'&(#[0-9]{1,7};'
                                r'|#[xX][0-9a-fA-F]{1,6};'
                                r'|[^\t\n\f <&#;]{1,32};)')
 _stdlib_charref = html._charref
+
+
+def unescape(string):
+    """
+    Replaces entity and numeric character references by the characters they stand for.
+
+    Unlike `html.unescape()`, a named reference is only replaced if it is the complete
+    name of an HTML5 entity, trailing semicolon included: `html.unescape()` would
+    also accept an entity name that is merely a prefix of the text before the semicolon,
+    so that `&ltx;` would become `<x;`.
+    """
+    if '&' not in string:
+        return string
+    return _markdown_charref.sub(_replace_charref, string)
+
+
+def _replace_charref(match):
+    name = match.group(1)
+    if name[0] == '#':
+        return html.unescape(match.group(0))
+    return _html5_entities.get(name, match.group(0))
 
 
 def tokenize(string, token_types):
@@ -78,7 +100,7 @@ def make_tokens(tokens, start, end, string, fallback_token):
     prev_end = start
     for token in tokens:
         if token.start > prev_end:
-            t = fallback_token(html.unescape(string[prev_end:token.start]))
+            t = fallback_token(unescape(string[prev_end:token.start]))
             if t is not None:
                 result.append(t)
         t = token.make()
@@ -86,7 +108,7 @@ def make_tokens(tokens, start, end, string, fallback_token):
             result.append(t)
         prev_end = token.end
     if prev_end != end:
-        result.append(fallback_token(html.unescape(string[prev_end:end])))
+        result.append(fallback_token(unescape(string[prev_end:end])))
     return result
 
 
